@@ -1,7 +1,7 @@
 (* ExtractedOk.v — umbrella over the per-topic files of the translator tie (XExtents, XBlocks, XUpdater, XLoops,
-   XReflink, XMeta, XOps, XBackup, XWalker, XMain, XConfig, XState): the definitions that /verif/xlate regenerates from the
+   XReflink, XMeta, XOps, XBackup, XWalker, XMain, XConfig, XState, XDrivers): the definitions that /verif/xlate regenerates from the
    repository's CURRENT source on every run (theories/Extracted.v) are equal to the hand-written model's.  An edit
    to one of the translated pieces of Rust changes Extracted.v and breaks the corresponding lemma (or, if the code
    leaves the supported subset, the extraction and with it the lemma).  Property files import only the topic files
    they cite, so a change only re-opens the obligations of the properties that depend on it. *)
-From XcpProofs Require Export XExtents XBlocks XUpdater XLoops XReflink XMeta XOps XBackup XWalker XMain XConfig XState.
+From XcpProofs Require Export XExtents XBlocks XUpdater XLoops XReflink XMeta XOps XBackup XWalker XMain XConfig XState XDrivers.
